@@ -323,6 +323,10 @@ func TestVerif(t *testing.T) {
 	if mon.finish != nil {
 		mon.finish(cfg, res)
 	}
+	if len(res.Samples) == 0 && len(scs) > 0 {
+		// always show at least what a scenario of this run looked like
+		res.sample(map[string]any{"scenario": scs[len(scs)/2], "note": "no richer sample was selected in this shard"})
+	}
 	res.WallS = time.Since(start).Seconds()
 	res.Done = true
 	if *fOut != "" {
